@@ -5,17 +5,18 @@ import sys, os, json, shutil, subprocess
 def sh(cmd, cwd=None):
     p = subprocess.run(cmd, shell=True, cwd=cwd, stdout=subprocess.PIPE, stderr=subprocess.STDOUT, text=True)
     return p.returncode, p.stdout
+TAG = os.environ.get("RF_TAG", "rf")
 for pid in sys.argv[1:]:
-    for k in (1, 2):
-        src = "/tmp/wt/%srf_out/refactor%d" % (pid, k)
+    for k in (1, 2, 3):
+        src = "/tmp/wt/%s%s_out/refactor%d" % (pid, TAG, k)
         if not os.path.exists(src + "/patch.diff"):
             print(pid, k, "missing"); continue
-        dst = "/verif/seeded/%s_rf%d" % (pid, k)
+        dst = "/verif/seeded/%s_%s%d" % (pid, TAG, k)
         os.makedirs(dst, exist_ok=True)
         shutil.copy(src + "/patch.diff", dst + "/patch.diff")
         if os.path.exists(src + "/notes.md"):
             shutil.copy(src + "/notes.md", dst + "/notes.md")
-        wt = "/tmp/wt/%srf" % pid
+        wt = "/tmp/wt/%s%s" % (pid, TAG)
         sh("git checkout -q -- . && git clean -fdq -e target -e Cargo.lock", cwd=wt)
         rc, out = sh("git apply %s/patch.diff" % dst, cwd=wt)
         ok_apply = rc == 0
